@@ -14,6 +14,13 @@ def handle : List String → Option String
       let s ← parseInt? s
       let (_, v) := draw (α := Float) (seed_norm s)
       pure (fbits v)
+  | ["rand_seq", s, l1, l2] => do
+      -- one generator object: random_vec(v[l1]); random(); random_vec(l2); random()  =  l1 + 1 + l2 + 1 consecutive draws
+      let s ← parseInt? s; let l1 ← parseNat? l1; let l2 ← parseNat? l2
+      let (_, outs) := (List.range (l1 + 1 + l2 + 1)).foldl (fun (acc : Int × List String) _ =>
+        let (s', v) := draw (α := Float) acc.1
+        (s', fbits v :: acc.2)) (seed_norm s, [])
+      pure (joinSp outs.reverse)
   | ["rand_ub", s] => do let s ← parseInt? s; pure (if next_long_rand_ub s then "1" else "0")
   | _ => none
 end Drv.C19
